@@ -55,7 +55,7 @@ static void add_op(struct xcmd c, int red)
 
 static void build_ops(void)
 {
-	struct { int naddr; struct xaddr a1, a2; int sep; int red; } af[56];
+	struct { int naddr; struct xaddr a1, a2; int sep; int red; } af[64];
 	int naf = 0, i, j;
 	struct xaddr none = A(XA_NONE, 0, 0, NULL, 0, 0, 0);
 #define AF1(x, r) do { af[naf].naddr = 1; af[naf].a1 = (x); af[naf].a2 = none; af[naf].sep = ','; af[naf].red = r; naf++; } while (0)
@@ -94,6 +94,14 @@ static void build_ops(void)
 	AF2(A(XA_MARK, 0, 0, NULL, 0, 0, 0), A(XA_DOLLAR, 0, 0, NULL, 0, 0, 0), ',', 0);
 	AF2(A(XA_NUM, 1, 0, NULL, 0, 0, 0), A(XA_NUM, 9, 0, NULL, 0, 0, 0), ',', 0);
 	AF2(A(XA_NUM, 2, 0, NULL, 0, 0, 0), A(XA_FWD, 0, 0, "ax", 0, 0, 0), ';', 0);
+	/* several offsets add up: $--  1++  3-+2  .+1-1 */
+	{
+		struct xaddr a2;
+		a2 = A(XA_DOLLAR, 0, 0, NULL, 1, 1, -1); a2.has_off2 = 1; a2.bare_off2 = 1; a2.off2 = -1; AF1(a2, 1);
+		a2 = A(XA_NUM, 1, 0, NULL, 1, 1, 1); a2.has_off2 = 1; a2.bare_off2 = 1; a2.off2 = 1; AF1(a2, 0);
+		a2 = A(XA_NUM, 3, 0, NULL, 1, 1, -1); a2.has_off2 = 1; a2.bare_off2 = 0; a2.off2 = 2; AF1(a2, 0);
+		a2 = A(XA_DOT, 0, 0, NULL, 1, 0, 1); a2.has_off2 = 1; a2.bare_off2 = 0; a2.off2 = -1; AF1(a2, 0);
+	}
 	/* a search that fails stays failed whatever offset follows it */
 	AF1(A(XA_FWD, 0, 0, "zz", 1, 0, -1), 0);
 	AF1(A(XA_BWD, 0, 0, "zz", 1, 0, 1), 0);
